@@ -68,6 +68,10 @@ func streamFn(seed uint64, idx int) caseT {
 		args[i] = lit(pool[k%len(pool)])
 		k /= len(pool)
 	}
+	if sig.name == "to_number" && (idx/len(fnSigs))%2 == 1 {
+		// strings that look like numbers to one parser or another
+		args[0] = literalTok(numberish[(idx/len(fnSigs)/2)%len(numberish)])
+	}
 	doc := interface{}(nil)
 	// large arrays with ties (stability of sort_by, first-extremal of max_by/min_by)
 	if (sig.name == "sort_by" || sig.name == "max_by" || sig.name == "min_by" || sig.name == "sort") && g.r.chance(30) {
@@ -147,7 +151,12 @@ func streamFnMatrix(seed uint64, idx int) caseT {
 }
 
 // Erroring sub-expressions, one per error kind.
-var errSeeds = []string{"abs(`\"a\"`)", "length(`1`)", "nosuch(@)", "abs()", "`[1,2]`[::0]", "sort_by(`[1,\"a\"]`, &@)", "max_by(`[{}]`, &a)", "merge(`1`)", "join(`1`, `[]`)", "not_null()"}
+var errSeeds = []string{"abs(`\"a\"`)", "length(`1`)", "nosuch(@)", "abs()", "`[1,2]`[::0]", "sort_by(`[1,\"a\"]`, &@)", "max_by(`[{}]`, &a)", "merge(`1`)", "join(`1`, `[]`)", "not_null()",
+	// errors that depend on the element (first / middle / last only), and a zero step on an empty array;
+	// projections are parenthesised so that a prefix context (`!%s`) cannot re-associate them
+	"map(&abs(@), `[\"x\",1]`)", "map(&abs(@), `[1,\"x\",2]`)", "(`[\"x\",1,2]`[*].abs(@))", "(`[1,2,\"x\"]`[?abs(@) > `0`])", "(`[[1],[\"x\"],[2]]`[].abs(@))",
+	"sort_by(`[{\"a\":\"x\"},{\"a\":1},{\"a\":2}]`, &abs(a))", "max_by(`[{\"a\":\"x\"},{\"a\":1}]`, &abs(a))", "(`{\"p\":\"x\",\"q\":1}`.*.abs(@))", "`[]`[::0]",
+	"(`[1,\"x\"]`[0:2].abs(@))", "[abs(`\"x\"`), `1`]", "{p: abs(`\"x\"`), q: `1`}"}
 
 // One-hole contexts in which the hole must be evaluated (document: errDoc).
 var strictCtx = []string{"%s", "(%s)", "%s.a", "%s[0]", "%s[*]", "%s[]", "%s[?a]", "%s.*", "%s[1:]", "%s | a", "a | %s", "%s || a", "%s && a", "!%s",
@@ -205,7 +214,18 @@ func streamAPI(seed uint64, idx int) caseT {
 		docs[i] = topDoc(g)
 		ops = append(ops, "d"+strconv.Itoa(i)+"."+canonOf(docs[i]))
 	}
-	special := []string{"`[3,1,2]` | [@[0], sort_by(@, &@)[0]]", "sort_by(@, &a)", "merge(`{\"r\":1}`, @)", "to_array(@)[?a]", "reverse(@)", "`[{\"k\":2},{\"k\":1}]` | [@[0].k, sort_by(@,&k)[0].k]",
+	if g.r.chance(25) {
+		// keys that are not identifiers: the expression spelled like the key must not select it
+		if g.single {
+			// single-member documents only (the expressions of this case may iterate over objects anywhere)
+			docs[0] = map[string]interface{}{g.r.pick([]string{"404", "2fa", "a-b", "a b", "", "0", "-1", "1e3", "007"}): 1.0}
+		} else {
+			docs[0] = map[string]interface{}{"404": 1.0, "2fa": 2.0, "a-b": 3.0, "a b": 4.0, "": 5.0, "0": 6.0, "x": map[string]interface{}{"404": 7.0}, "a": 8.0, "-1": 9.0, "1e3": 10.0}
+		}
+		ops[0] = "d0." + canonOf(docs[0])
+	}
+	special := []string{"404", "2fa", "a-b", "a b", "", "0", "x.404", "-1", "1e3", "a", "007",
+		"`[3,1,2]` | [@[0], sort_by(@, &@)[0]]", "sort_by(@, &a)", "merge(`{\"r\":1}`, @)", "to_array(@)[?a]", "reverse(@)", "`[{\"k\":2},{\"k\":1}]` | [@[0].k, sort_by(@,&k)[0].k]",
 		"foo[?a == 'x']", "'it\\'s", "'x\\'y'", "a.'", "\"unclosed", "`{`", "[0", "a ||", "'ok'", "`[1,2]`[::0]", "abs(@)", "merge(@, `{\"z\":9}`)", "max_by(@, &a)", "[to_array(a), map(&b, c)]"}
 	mkExpr := func() string {
 		if g.r.chance(35) {
